@@ -135,6 +135,7 @@ def hi_word_of_ax(bv, track):
 class Range(object):
     def __init__(self):
         self.lo, self.hi, self.lo_open, self.unknown = Fr(0), None, False, []
+        self.excluded = []
 
     def le(self, c):
         self.hi = c if self.hi is None else min(self.hi, c)
@@ -180,7 +181,9 @@ def apply_cond(rg, kind, c, track):
             if (n == 'eq') == truth:
                 rg.ge(dec_f(C << 32, 64))
                 rg.le(dec_f(((C + 1) << 32) - 1, 64))
-            return True                       # ix != C: a single binade-slice removed: no useful bound
+            else:
+                rg.excluded.append((dec_f(C << 32, 64), dec_f(((C + 1) << 32) - 1, 64)))       # ix != C
+            return True
     if n.startswith('f') and n[1:] in ('olt', 'ole', 'ult', 'ule', 'oeq', 'une', 'ogt', 'oge', 'ugt', 'uge'):
         a, b = t.ops
         if T.is_const(T.canon(a)) and is_ax(b, track):
@@ -241,6 +244,10 @@ def _nonfinite(bv):
 
 
 # ---------------------------------------------------------------- one case
+def p_res(bits):
+    return 24 if bits == 32 else 53
+
+
 def find_xr(ex, term):
     """the reduced argument: operand T of a squaring fmul(T, T) whose real reading is affine with |x| coefficient 1"""
     from .c10 import walk_terms
@@ -285,7 +292,7 @@ def k_atom_info(ex, i, track):
     return dec_f(T.const_val(T.canon(cs[0])), T.width(cs[0]))
 
 
-def analyse_case(ex, term, g, rg, track, bits, func, conds=()):
+def analyse_case(ex, term, g, rg, track, bits, func, conds=(), exact_conditions=True):
     """-> dict (ulp, details) or raises Mismatch"""
     from .c10 import Mismatch, ulps, cody_waite_error
     atoms = sorted(g.atoms())
@@ -363,7 +370,44 @@ def analyse_case(ex, term, g, rg, track, bits, func, conds=()):
     eb = 50 if bits == 32 else 85
     best = None
     tried = {}
-    for kind in ('sin', 'cos'):
+    def tan_like(NN, DD):
+        """bound of | (NN/DD) / tan(u) -+ 1 | with NN(0) = 0: NN = u N1;  (N1 C - DD S1) / (DD S1), S1 = sin(u)/u"""
+        sser, cser = Q.sin_over_x_series(R, eps_bits=eb), Q.cos_series(R, eps_bits=eb)
+        N1 = NN.shift_down(1)
+        den = DD.to_qi() * sser.poly
+        extra = Q.sup_abs(N1, ulo, uhi, 16) * cser.tail + Q.sup_abs(DD, ulo, uhi, 16) * sser.tail
+        dmin = Q.inf_abs(den, ulo, uhi, 32) - Q.sup_abs(DD, ulo, uhi, 16) * sser.tail
+        if dmin <= 0:
+            raise ZeroDivisionError()
+        out = None
+        for sgn in (1, -1):
+            num = N1.to_qi() * cser.poly - den * sgn
+            b_ = Q.sup_ratio(num, den, ulo, uhi, 64) + extra / dmin
+            out = b_ if out is None or b_ < out else out
+        return out
+
+    for kind in (('tan', 'cot') if func == 'tan' else ()):
+        try:
+            if kind == 'tan':
+                if N.c[0] != 0 or D.c[0] == 0:
+                    if ulo <= 0 <= uhi:
+                        tried[kind] = float('inf')
+                    continue
+                rho = tan_like(N, D)
+            else:
+                if D.c[0] != 0 or N.c[0] == 0:
+                    if ulo <= 0 <= uhi:
+                        tried[kind] = float('inf')
+                    continue
+                rr = tan_like(D, N)                    # (D/N)/tan = 1/r' ... |1/x - 1| <= e/(1-e)
+                rho = rr / (1 - rr) if rr < 1 else Fr(10 ** 9)
+        except ZeroDivisionError:
+            tried[kind] = float('inf')
+            continue
+        tried[kind] = float(ulps(rho, bits))
+        if best is None or rho < best[1]:
+            best = (kind, rho)
+    for kind in (('sin', 'cos') if func != 'tan' else ()):
         try:
             if kind == 'sin':
                 ser = Q.sin_over_x_series(R, eps_bits=eb)
@@ -396,14 +440,60 @@ def analyse_case(ex, term, g, rg, track, bits, func, conds=()):
     if best is None:
         if tried and all(v == float('inf') for v in tried.values()):
             return {'verdict': 'bad', 'ulp': float('inf'), 'u_range': (float(ulo), float(uhi)), 'c0': float(c0), 'kmax': kmax,
-                    'why': 'on the reduced range [%.4g, %.4g] the kernel is neither sin nor cos: the range contains a zero of the function where the kernel does not vanish' % (float(ulo), float(uhi))}
+                    'why': 'on the reduced range [%.4g, %.4g] the kernel is none of the expected functions: the range contains a zero of the function where the kernel does not vanish' % (float(ulo), float(uhi))}
         raise Mismatch('neither sin nor cos comparable on the reduced range')
+    # arguments that are (nearly) multiples of pi/2: the float x_n nearest to n pi/2 leaves a reduced argument
+    # u_n = x_n - n pi/2 that can be tiny, and the error n |lam - pi/2| of the reduction constants is then a relative
+    # error n |lam - pi/2| / |u_n| of the function that vanishes there (sin: n even, cos: n odd, tan: both).
+    near = None
+    if (K is not None or c0 != 0) and exact_conditions:
+        from engine import pointeval as PEV
+        wbits = bits
+        piq = pio2
+        d_lam = (Q.QI(lam_code) - pio2).mag() if K is not None else Fr(0)
+        nlist = range(1, kmax + 1) if K is not None else [round(float(c0) / 1.5707963267948966)]
+        if K is not None and kmax > 4096:
+            # far tiers: only if the constants could matter at all (no float is closer than 2^-(p+12) relative to a multiple)
+            nlist = range(1, 4097) if d_lam * kmax * (1 << (2 * p_res(bits) + 12)) > 1 else []
+        worst = Fr(0)
+        for n_ in nlist:
+            if n_ <= 0:
+                continue
+            if func == 'sin' and n_ % 2 == 1:
+                continue
+            if func == 'cos' and n_ % 2 == 0:
+                continue
+            target = piq * n_
+            xb = PEV.round_to_bits(target.mid(), wbits)
+            xn = dec_f(xb, wbits)
+            if xn < rg.lo or (rg.hi is not None and xn > rg.hi) or any(a_ <= xn <= b_ for (a_, b_) in rg.excluded):
+                continue
+            un = (Q.QI(xn) - target).mig()
+            if un == 0:
+                continue
+            e_n = d_lam * n_ if K is not None else (Q.QI(c0) - pio2 * n_).mag()
+            # the true result there is +-sin(u_n) ~ u_n (or its reciprocal for tan): the error in ulps of THAT value (exact binade)
+            eb_ = un.numerator.bit_length() - un.denominator.bit_length()
+            if Fr(2) ** eb_ > un:
+                eb_ -= 1
+            ulp_true = Fr(2) ** (eb_ - p_res(bits) + 1)
+            r_n = (e_n / ulp_true) / (1 << p_res(bits))          # expressed as the relative error that gives this ulp count
+            if r_n > worst:
+                worst = r_n
+                near = {'n': n_, 'x': float(xn), 'x_hex': float(xn).hex(), 'reduced': float(un), 'rel_err': float(r_n)}
+        if near is not None:
+            near['ulp'] = float(ulps(worst, bits))
+            near['ulp_exact'] = ulps(worst, bits)
     cw = Fr(0)
     cw_site = None
     if K is not None:
         cw, cw_site = cody_waite_error(ex, term, K, min(kmax, 4096), p)
     rho = best[1] + e_u + cw
-    return {'verdict': None, 'kernel': best[0], 'ulp_exact': ulps(rho, bits), 'ulp': float(ulps(rho, bits)), 'kernel_ulp': float(ulps(best[1], bits)),
+    if near is not None and near['ulp_exact'] > ulps(rho, bits):
+        rho = near.pop('ulp_exact') / (1 << p_res(bits))
+    elif near is not None:
+        near.pop('ulp_exact')
+    return {'near_multiple': near, 'verdict': None, 'kernel': best[0], 'ulp_exact': ulps(rho, bits), 'ulp': float(ulps(rho, bits)), 'kernel_ulp': float(ulps(best[1], bits)),
             'reduction_const_ulp': float(ulps(e_u, bits)), 'cody_waite_ulp': float(ulps(cw, bits)), 'cody_waite_site': cw_site,
             'u_range': (float(ulo), float(uhi)), 'kmax': kmax, 'lambda_code': float(lam_code), 'c0': float(c0), 'either': tried}
 
@@ -428,8 +518,8 @@ def analyse_trig(mod, fname, func, bits, thr):
             if not apply_cond(rg, kind, c, track):
                 understood = False
                 rg.unknown.append(T.fmt(c, 3)[:100])
-        if rg.hi is not None and rg.lo > rg.hi:
-            continue                                      # infeasible combination of branches
+        if (rg.hi is not None and rg.lo > rg.hi) or rg.lo >= Fr(10) ** 300:
+            continue                                      # infeasible combination of branches / only a non-finite argument comes here
         ex = RFN.Extract()
         try:
             cs = ex.cases_abs(term)
@@ -441,6 +531,7 @@ def analyse_trig(mod, fname, func, bits, thr):
                 continue                                  # a constant / NaN result (infinite argument)
             rg2 = Range()
             rg2.lo, rg2.hi = rg.lo, rg.hi
+            rg2.excluded = list(rg.excluded)
             ok2 = understood
             for (ck, taken) in conds:
                 cb = getattr(ex, 'conds', {}).get(ck)
@@ -465,7 +556,7 @@ def analyse_trig(mod, fname, func, bits, thr):
                 out['cases'].append(rec)
                 continue
             try:
-                r = analyse_case(ex, term, g, rg2, track, bits, func, conds)
+                r = analyse_case(ex, term, g, rg2, track, bits, func, conds, exact_conditions=not rec.get('ignored_conditions'))
                 if r['verdict'] is None:
                     r['verdict'] = 'ok' if r.pop('ulp_exact') <= thr else 'bad'
                 rec.update(r)
